@@ -62,7 +62,7 @@ def run(ctx):
     th = theorems()
     if th:
         ctx.proof_stage('Props.C01', th)
-    for extra in ('C01loops', 'C01ctl', 'C01call', 'C01truth', 'C01ptr'):
+    for extra in ('C01loops', 'C01ctl', 'C01call', 'C01truth', 'C01ptr', 'C01elem'):
         pl = os.path.join(COQ, 'Props', extra + '.v')
         if os.path.exists(pl):
             ctx.proof_stage('Props.' + extra, re.findall(r'^Theorem (\w+)', open(pl).read(), re.M))
